@@ -352,6 +352,23 @@ fn probes(n: &Node, pepper: bool, clk: Clk, deep: bool) -> Result<u64, (String, 
             (Err(_), None) => {}
         }
     }
+    // the database's own token lookups (public API; the provider builds on get_user_by_token): a token finds
+    // exactly the user whose stored session carries it
+    for (t, tok) in n.tokens.iter().enumerate() {
+        count += 2;
+        let holder = owner_of(&n.model, t).map(|u| n.uids[u].clone());
+        let by_user = n.db.get_user_by_token(tok).map(|u| u.uid);
+        if by_user != holder {
+            return bad("database: get_user_by_token finds the wrong user (or one without that session)", format!("token #{} -> {:?}, holder {:?}", t, by_user, holder));
+        }
+        let by_sess = n.db.get_session_by_token(tok).map(|s| s.token);
+        if by_sess.is_some() != holder.is_some() || by_sess.as_deref().map_or(false, |x| x != tok) {
+            return bad("database: get_session_by_token returns a session that does not carry the token (or misses the one that does)", format!("token #{} -> {:?}", t, by_sess.map(|x| x.chars().take(8).collect::<String>())));
+        }
+    }
+    if n.db.get_user_by_token("f".repeat(64)).is_some() || n.db.get_session_by_token("f".repeat(64)).is_some() {
+        return bad("database: an unknown token finds a user or session", String::new());
+    }
     if p.get_uid_by_token("f".repeat(64)).is_ok() || p.get_uid_by_token("").is_ok() {
         return bad("an unknown token authenticates", String::new());
     }
@@ -399,6 +416,35 @@ fn probes(n: &Node, pepper: bool, clk: Clk, deep: bool) -> Result<u64, (String, 
     Ok(count)
 }
 
+/// Session's own constructors on the virtual clock: documented lifetimes, token format, validity
+fn session_api(st: &mut Stats) {
+    for now in [0u64, 5, 3599] {
+        set_clock(NO_CLOCK, now);
+        let cases: Vec<(Session, u64, &str)> = vec![(Session::create(), 3600, "create()"), (Session::create_with_lifetime(7), 7, "create_with_lifetime(7)"), (Session::create_with_lifetime(0), 0, "create_with_lifetime(0)")];
+        for (s, life, what) in cases {
+            st.evaluations += 1;
+            if s.expiry != T0 + now + life || !hex64(&s.token) || s.valid() != (life > 0) {
+                st.violation("Session constructor: wrong expiry, token format or validity", || json!({"constructor": what, "expiry_minus_now": s.expiry as i64 - (T0 + now) as i64, "valid": s.valid()}));
+            }
+            if life > 0 {
+                set_clock(NO_CLOCK, now + life - 1);
+                let last_second = s.valid();
+                set_clock(NO_CLOCK, now + life);
+                if !last_second || s.valid() {
+                    st.violation("Session::valid is not `now < expiry`", || json!({"constructor": what}));
+                }
+                let mut r = s.clone();
+                r.refresh(9);
+                if r.expiry != T0 + now + life + 9 || r.token != s.token {
+                    st.violation("Session::refresh does not set the expiry to now + lifetime", || json!({"constructor": what}));
+                }
+                set_clock(NO_CLOCK, now);
+            }
+        }
+    }
+    humphrey::verif::time::set_virtual_clock(None);
+}
+
 fn bfs(st: &mut Stats, pepper: bool, clk: Clk, max_users: usize, depth: usize) {
     let all_tokens = Mutex::new(HashSet::new());
     let root = Node { model: vec![], db: vec![], uids: vec![], tokens: vec![], hashes: vec![], history: vec![], now: 0 };
@@ -410,7 +456,12 @@ fn bfs(st: &mut Stats, pepper: bool, clk: Clk, max_users: usize, depth: usize) {
         // expand the whole level in parallel (Argon2 dominates)
         let jobs: Vec<(&Node, Ev)> = frontier.iter().flat_map(|n| enabled(n, max_users, clk).into_iter().map(move |ev| (n, ev))).collect();
         let tok_ref = &all_tokens;
-        let results: Vec<(Ev, Result<Node, (String, String)>, Vec<Ev>)> = jobs.par_iter().map(|(n, ev)| (*ev, step(n, *ev, pepper, clk, tok_ref), n.history.clone())).collect();
+        let results: Vec<(Ev, Result<Node, (String, String)>, Vec<Ev>)> = jobs.par_iter().map(|(n, ev)| {
+                // a panic inside an AuthProvider / database operation is a verdict about the subject
+                let r = std::panic::catch_unwind(std::panic::AssertUnwindSafe(|| step(n, *ev, pepper, clk, tok_ref))).unwrap_or_else(|_| Err(("an AuthProvider operation panicked".to_string(), format!("{:?}", ev))));
+                (*ev, r, n.history.clone())
+            })
+            .collect();
         // every successor is probed, also when its canonical state has been seen before: merging is only
         // sound if the implementation agrees with the model there too (a path-dependent defect shows up as a
         // successor whose observations differ from those of its canonical state)
@@ -436,7 +487,8 @@ fn bfs(st: &mut Stats, pepper: bool, clk: Clk, max_users: usize, depth: usize) {
             .par_iter()
             .map(|(n, fresh)| {
                 let deep = *fresh && (matches!(n.history.last(), Some(Ev::CreateUser(_)) | Some(Ev::RemoveUser(_))) || n.history.len() == depth);
-                (probes(n, pepper, clk, deep), n.history.clone())
+                let r = std::panic::catch_unwind(std::panic::AssertUnwindSafe(|| probes(n, pepper, clk, deep))).unwrap_or_else(|_| Err(("a lookup (exists / verify / get_uid_by_token / auth route) panicked".to_string(), String::new())));
+                (r, n.history.clone())
             })
             .collect();
         for (r, hist) in pr {
@@ -470,6 +522,7 @@ pub fn run(mut cx: Ctx) -> ! {
     cx.bound("depth", depth);
     cx.bound("max_users", users);
     let mut st = Stats::default();
+    session_api(&mut st);
     bfs(&mut st, false, NO_CLOCK, users, depth);
     bfs(&mut st, true, NO_CLOCK, users.min(2), depth.min(5) - 1);
     // the same search on a virtual wall clock: sessions of 2 s (default), 3 s (explicit) and 2 s after a refresh,
